@@ -28,6 +28,18 @@ def gen(rng):
 def run(ctx, model_available=True):
     rng = rng_for(ctx.seed, "C10gen")
     hs = [gen(rng) for _ in range(ctx.budget(700, 12000))]
+    # an open episode, then the node presents itself (with a version the library may reject),
+    # then another message for an unknown child: a new episode
+    for v in ("2.0", "2.1", "2.2"):
+        for node in (0, 5):
+            for ver in ("2.0", "", "2.x-custom", "n/a"):
+                for sleeping in (False, True):
+                    ops = [("recv", f"0;255;3;0;2;{v}", ()), ("recv", f"{node};3;1;0;2;1", ()), ("recv", f"{node};3;1;0;2;1", ()),
+                           ("recv", f"{node};255;0;0;{18 if node == 0 else 17};{ver}", ()), ("recv", f"{node};3;1;0;2;1", ())]
+                    if sleeping:
+                        ops += [("recv", f"{node};255;0;0;17;2.0", ()), ("set_sleeping", node, True), ("recv", f"{node};4;1;0;2;1", ()),
+                                ("recv", f"{node};4;2;0;2;", ())]
+                    hs.append(ops)
     return run_property(ctx, "C10", histories=hs, n_quick=0, n_thorough=0, oracle=oracle_c10,
                         model_available=model_available,
                         assumptions=["the application sends only set commands in these histories (an application-sent buffered internal message would occupy the marker slot: known finding of C12)"])
